@@ -7,7 +7,7 @@ use spl_frontend::{
         GlobalEntry, GlobalTable, LocalEntry, LocalTable, LookupTable, SymbolTable, TableEntry,
     },
     tokens::{Token, TokenList, TokenType},
-    ToTextRange,
+    ToRange, ToTextRange,
 };
 use tokio::sync::mpsc::Sender;
 
@@ -25,11 +25,17 @@ pub async fn propose(
             return Ok(None);
         }
 
-        if let Some(gd) = program
-            .global_declarations
-            .iter()
-            .find(|gd| gd.to_text_range(&tokens[gd.offset..]).contains(&position))
-        {
+        if let Some(gd) = program.global_declarations.iter().find(|gd| {
+            // The doc comments belong to the tokens of a declaration,
+            // but a cursor between them and the declaration itself is in front of it.
+            let tokens = &tokens[gd.offset..];
+            let range = gd.to_text_range(tokens);
+            let start = tokens
+                .get(gd.to_range())
+                .and_then(|tokens| tokens.iter().find(|token| !is_comment(token)))
+                .map_or(range.end, |token| token.range.start);
+            (start.max(range.start)..range.end).contains(&position)
+        }) {
             let tokens = &tokens[gd.offset..];
             use GlobalDeclaration::*;
             match gd.as_ref() {
